@@ -70,7 +70,14 @@ def compute(sysd, case, flags):
         r = gcall(radial_distribution_between_species, trajectory=traj, specie_1=a, specie_2=b, max_dist=rd['max_dist'], resolution=rd['resolution'])
         out['rdf_species'][a, b] = np.asarray(r.y, float)
     rs = gcall(tr.radial_distribution, floating_specie='Li', max_dist=rd['max_dist'], resolution=rd['resolution'])
-    out['rdf_states'] = {(state, r.label): np.asarray(r.y) for state, coll in rs.items() for r in coll}
+    # the names of the "~>" states (no previous or no next site) are not specified (the label appended depends on an
+    # arbitrary label order), so those states are merged into one class; "@X" and "X->Y" keep their names
+    out['rdf_states'] = {}
+    for state, coll in rs.items():
+        cls = '~>' if state.startswith('~>') else state
+        for r in coll:
+            y = np.asarray(r.y)
+            out['rdf_states'][cls, r.label] = out['rdf_states'][cls, r.label] + y if (cls, r.label) in out['rdf_states'] else y
     # metrics of the diffusing species
     m = gcall(traj.filter('Li').metrics)
     out['tracer'] = float(gcall(m.tracer_diffusivity, dimensions=3))
